@@ -87,6 +87,13 @@ UNIT_TRUSTED["daemon_peer_cfg"] = [
     "NOT under contract: PeerParams::build (local AS defaulting to the global AS, default port, capability list), build_local_cap, the TryFrom conversions from the configuration file / API, Global::add_peer, accept_connection (async), negotiate_gr / negotiate_llgr",
 ]
 
+UNIT_TRUSTED["daemon_gr_neg"] = [
+    "PeerSession::negotiate_gr / negotiate_llgr, each put into an impl block of its own where it stands (rule SPLIT: `}` / `impl PeerSession {` inserted around the method, the method text untouched) because the rest of `impl PeerSession` (async fns, select!) does not pass the verus! macro even as external items; PeerSession itself stays outside Verus, its `local_cap` field is read through an assumed accessor (vx_session_local_cap)",
+    "the four `iter().find_map(|c| match c { .. })?` lookups of the first GracefulRestart / LongLivedGracefulRestart capability are outlined verbatim (vx_first_gr_local / _remote, vx_first_llgr_local / _remote) with ASSUMED contracts: the fields of the first such element of the list (first_gr / first_llgr, recursive reference functions), families without their flags for the local side",
+    "`into_iter().filter(p).collect()` and `iter().filter_map(f).collect()` are R12 helpers with ASSUMED std semantics (exactly the elements p accepts, in order / exactly the values f returns as Some); the closures stay verbatim at the call site and are verified there (`pf == f` on references rewritten to `*pf == *f`, rule R9); `peer_families.iter().any(..)` / `.find(..)` through the verified loops VxIterS::any / vx_find; Duration::from_secs as an uninterpreted function of the seconds",
+    "NOT under contract: where the result is used (PeerSession::run / on_established, async), the capability lists themselves (PeerParams::build_local_cap; the remote list is what parse_message decoded)",
+]
+
 UNIT_TRUSTED["packet_negotiate"] = [
     "PeerCodec::negotiate wrapped in place, including its local struct `Raw`, the `parse` closure (five loops under invariants) and the main loop; R11 / R11b helpers with assumed contracts: vx_hm_get_mut (`h.get_mut(f)` as a `&mut` into the map), vx_hm_into_vec (`for (f, rc) in parse(remote)`: the entries of the map, each key once, order unspecified — the statement is split into `let rmap = parse(remote); let rv = ..; for .. in rv`), VxIterS (`v.iter()` on a slice with verified `.any`); vstd's HashMap::{insert, remove}; Family obeys the hash-key model; Family::afi uninterpreted; the type annotation `FnvHashMap<Family, FamilyState>` added to `families` (rustc infers the same); #[verifier::loop_isolation(false)], rlimit(400)",
     "the reference: a family is advertised iff some MultiProtocol capability names it; its ADD-PATH value is the last one listed for it over all ADD-PATH capabilities in order (0 if none), only for advertised families; extended next hop iff the family has AFI 1 and some ExtendedNexthop entry (f, 2) — taken from the code's reading of RFC 7911 / RFC 8950, the property only asks for the mirror image",
@@ -147,8 +154,8 @@ UNIT_TRUSTED["packet_nlri"] = [
 ]
 
 # minimum number of functions that must produce obligations / of must-fail twins that must run
-FLOORS = {"daemon_fsm": 30, "daemon_gr": 4, "daemon_peer_tx": 9, "table_cmp": 20, "packet_validate": 1, "packet_parse": 1, "table_rpki": 5, "table_policy": 13, "daemon_export": 11, "packet_bmp": 6, "packet_mrt": 8, "packet_aspath": 11, "packet_encode": 4, "packet_nlri": 22, "daemon_restart": 7, "packet_negotiate": 1, "table_rslocal": 1, "daemon_peer_cfg": 2}
-TWIN_FLOORS = {"daemon_fsm": 8, "daemon_gr": 3, "daemon_peer_tx": 2, "table_cmp": 4, "packet_validate": 1, "packet_parse": 1, "table_rpki": 1, "table_policy": 1, "daemon_export": 1, "packet_bmp": 1, "packet_mrt": 1, "packet_aspath": 1, "packet_encode": 1, "packet_nlri": 1, "daemon_restart": 1, "packet_negotiate": 0, "table_rslocal": 0, "daemon_peer_cfg": 0}
+FLOORS = {"daemon_fsm": 30, "daemon_gr": 4, "daemon_peer_tx": 9, "table_cmp": 20, "packet_validate": 1, "packet_parse": 1, "table_rpki": 5, "table_policy": 13, "daemon_export": 11, "packet_bmp": 6, "packet_mrt": 8, "packet_aspath": 11, "packet_encode": 4, "packet_nlri": 22, "daemon_restart": 7, "packet_negotiate": 1, "table_rslocal": 1, "daemon_peer_cfg": 2, "daemon_gr_neg": 2}
+TWIN_FLOORS = {"daemon_fsm": 8, "daemon_gr": 3, "daemon_peer_tx": 2, "table_cmp": 4, "packet_validate": 1, "packet_parse": 1, "table_rpki": 1, "table_policy": 1, "daemon_export": 1, "packet_bmp": 1, "packet_mrt": 1, "packet_aspath": 1, "packet_encode": 1, "packet_nlri": 1, "daemon_restart": 1, "packet_negotiate": 0, "table_rslocal": 0, "daemon_peer_cfg": 0, "daemon_gr_neg": 0}
 
 PLAN = {
     "C01": {"verus": ["daemon_peer_tx", "daemon_export"], "level": "proof",
@@ -166,7 +173,7 @@ PLAN = {
     "C11": {"verus": ["daemon_restart"], "level": "proof"},
     "C12": {"verus": ["table_rpki"], "kani": ["c12_covering_key_v4", "c12_covering_key_v6"], "level": "proof"},
     "C14": {"verus": ["table_policy"], "level": "proof"},
-    "C16": {"verus": ["daemon_fsm", "packet_negotiate", "daemon_peer_cfg"], "kani": ["c16_ipnet_contains_v4", "c16_ipnet_contains_v6"], "level": "proof"},
+    "C16": {"verus": ["daemon_fsm", "packet_negotiate", "daemon_peer_cfg", "daemon_gr_neg", "packet_parse"], "kani": ["c16_ipnet_contains_v4", "c16_ipnet_contains_v6"], "level": "proof"},
     "C04": {"verus": ["packet_encode", "packet_aspath"], "level": "proof", "kani": ["c04_ipv4_entry_round_trip", "c04_ipv6_entry_round_trip"],
             "fn_filter": {"packet_aspath": ["encode", "encode_wire", "value", "binary", "as_path_has_wide_as", "lemma_seg_any_wide_mono"]}},
     "C02": {"verus": ["table_cmp", "table_rslocal", "packet_aspath"], "level": "proof",
